@@ -1,4 +1,5 @@
 ENTRY = dict(
+    gen=["suites"],
     runner="C25", pkg="./cmd/c25", corr=["Corr.C25Corr"], n=dict(quick=1, thorough=1), runner_timeout=2400,
     rule="every (version, suite) that the crypto/tls server of the toolchain negotiates with uTLS, taken from the real suite "
          "table (TLS 1.0/1.1: 11 suites each, TLS 1.2: 22, TLS 1.3: 3): a uTLS client (spec offering exactly that pair) "
